@@ -37,7 +37,8 @@ def rt_event(pp, tid, A, plus, zplus, text):
         o, b = call(pp.parse, s)
         if o == "ret" and isinstance(b, pp.ProFormaAnnotation):
             ev[key] = project.ann(b)
-            eq = eq and (b == a) and (a == b)
+            oe, e_ = call(lambda: bool((b == a) and (a == b)))     # a comparison may raise: that is "not equal"
+            eq = eq and oe == "ret" and e_
         else:
             ev[key] = blank
             eq = False
